@@ -178,7 +178,13 @@ def one_case(ctx, drv):
             for e in pl.manifests[gm]:
                 if e['tag'] == 'DIST':
                     e['cks'] = {'MD5': 'bb'}
+        st_old = {mp: os.stat(os.path.join(root, mp)) for mp in pl.manifests if os.path.isfile(os.path.join(root, mp))}
         gen_tree.write_plan(pl, root)          # the attacker recomputes every Manifest consistently ...
+        # ... in place, and puts the old modification time back wherever the size did not change (nothing but the content tells)
+        for mp, st in st_old.items():
+            fp = os.path.join(root, mp)
+            if os.path.isfile(fp) and os.stat(fp).st_size == st.st_size:
+                os.utime(fp, ns=(st.st_atime_ns, st.st_mtime_ns))
         k = rng.randint(1, len(chain) - 1)
         for mp in chain[:k]:                    # ... but levels above k stay untouched
             open(os.path.join(root, mp), 'wb').write(old[mp])
